@@ -180,19 +180,19 @@ theorem C15_fec_held (C : CodecNew) (dec : Decoder) (h : dec.sets = []) (ins : L
 
 /-! ### non-vacuity: a 2+1 group with the executable GF(2^8) code -/
 
-def exD1 : Fec.Bytes := [0, 0, 0, 0, 241, 0, 5, 0, 7, 7, 7]
-def exD2 : Fec.Bytes := [1, 0, 0, 0, 241, 0, 4, 0, 9, 9]
-def exPar : Fec.Bytes := [2, 0, 0, 0, 242, 0, 7, 0, 27, 27, 9]
+def c15ExD1 : Fec.Bytes := [0, 0, 0, 0, 241, 0, 5, 0, 7, 7, 7]
+def c15ExD2 : Fec.Bytes := [1, 0, 0, 0, 241, 0, 4, 0, 9, 9]
+def c15ExPar : Fec.Bytes := [2, 0, 0, 0, 242, 0, 7, 0, 27, 27, 9]
 
 /- data shard 0, the same again (duplicate: no get), the parity shard (reconstruction of shard 1 into
 a fresh buffer, both packets recycled, the recovered buffer read and recycled by the caller), then
 the late data shard 1 (stored again in the emptied set) -/
 set_option maxRecDepth 100000 in
-example : ((DecO.new rsNew 2 1).map fun o => (runD rsNew o [exD1, exD1, exPar, exD2]).gh.log) =
+example : ((DecO.new rsNew 2 1).map fun o => (runD rsNew o [c15ExD1, c15ExD1, c15ExPar, c15ExD2]).gh.log) =
     some [.get 0, .get 1, .use 0, .use 1, .use 0, .use 1, .get 2, .put 0, .put 1, .use 2, .put 2, .get 3] := by
   decide
 set_option maxRecDepth 100000 in
-example : ((DecO.new rsNew 2 1).map fun o => (decodeO rsNew (runD rsNew o [exD1]) exPar).recovered) =
+example : ((DecO.new rsNew 2 1).map fun o => (decodeO rsNew (runD rsNew o [c15ExD1]) c15ExPar).recovered) =
     some [[4, 0, 9, 9, 0]] := by decide
 
 end KcpVerif.Props
